@@ -19,7 +19,7 @@ import (
 func init() {
 	mon.Register(&mon.Prop{
 		ID: "C14", Level: "exploration",
-		Rule:        "annotated sequences with every length 1..300 (each residue class modulo the 70-column FASTA width several times) and random lengths to 5000, 0..30 features with 1..6 attributes (one feature in 40 with a value of 3,000..140,000 letters, around 4096, 8192 and 65536 bytes per row), features at the extreme coordinates 1 and L, field text free of tab, newline, ';', '=' and seqids free of white space; write direction: gff.Build -> gff.Parse, gff.Build -> the harness's own GFF3 reader, Write/Read through a temp file; parse direction: GFF3 laid out by the harness's own writer (attribute order shuffled, FASTA wrap width 1..200, with/without ###, with/without final newline) -> gff.Parse; non-trivial = at least one feature; distinct by hash of the GFF text",
+		Rule:        "annotated sequences with every length 1..300 (each residue class modulo the 70-column FASTA width several times) and random lengths to 5000, 0..30 features with 1..6 attributes (one feature in 40 with a value of 3,000..140,000 letters, around 4096, 8192 and 65536 bytes per row), features at the extreme coordinates 1 and L, field text free of tab, newline, ';', '=' and seqids free of white space; write direction: gff.Build -> gff.Parse, gff.Build -> the harness's own GFF3 reader, Write/Read through a temp file; parse direction: GFF3 laid out by the harness's own writer (attribute order shuffled, FASTA wrap width 1..200, one file in four with ragged FASTA lines (a regular wrap with single letters moved between lines, or every line of its own width), one in twelve with zero-padded decimal coordinates, with/without ###, with/without final newline) -> gff.Parse; non-trivial = at least one feature; distinct by hash of the GFF text",
 		Assumptions: []string{"oracle: the input record; coordinates checked against the harness's own slicing of the sequence (file start..end, 1-based inclusive)"},
 		Shards:      tierShards(8, 16), WatchdogSec: tierSecs(600, 3600),
 		MinStats: func(string) map[string]int64 {
@@ -186,11 +186,23 @@ func (rec *gffRecord) toPoly() poly.Sequence {
 	return s
 }
 
+var c14PaddedFiles, c14RaggedFiles int
+
 // writeGFF is the harness's own GFF3 writer for the parse direction.
 func (rec *gffRecord) writeGFF(r *rand.Rand) string {
 	var sb strings.Builder
 	sb.WriteString("##gff-version 3\n")
-	fmt.Fprintf(&sb, "##sequence-region %s %d %d\n", rec.Name, rec.RegStart, rec.RegEnd)
+	// column-oriented exports write the integer columns zero-padded to one width (decimal all the same)
+	padded := 0
+	if r.Intn(12) == 0 {
+		padded = 3 + r.Intn(6)
+		c14PaddedFiles++
+	}
+	if padded > 0 && r.Intn(2) == 0 {
+		fmt.Fprintf(&sb, "##sequence-region %s %0*d %0*d\n", rec.Name, padded, rec.RegStart, padded, rec.RegEnd)
+	} else {
+		fmt.Fprintf(&sb, "##sequence-region %s %d %d\n", rec.Name, rec.RegStart, rec.RegEnd)
+	}
 	if r.Intn(3) == 0 {
 		sb.WriteString("##species https://example.org/taxonomy\n")
 	}
@@ -202,7 +214,11 @@ func (rec *gffRecord) writeGFF(r *rand.Rand) string {
 		}
 		sort.Strings(kv)
 		r.Shuffle(len(kv), func(i, j int) { kv[i], kv[j] = kv[j], kv[i] })
-		fmt.Fprintf(&sb, "%s\t%s\t%s\t%d\t%d\t%s\t%s\t%s\t%s\n", f.Seqid, f.Source, f.Type, f.Start, f.End, f.Score, f.Strand, f.Phase, strings.Join(kv, ";"))
+		if padded > 0 {
+			fmt.Fprintf(&sb, "%s\t%s\t%s\t%0*d\t%0*d\t%s\t%s\t%s\t%s\n", f.Seqid, f.Source, f.Type, padded, f.Start, padded, f.End, f.Score, f.Strand, f.Phase, strings.Join(kv, ";"))
+		} else {
+			fmt.Fprintf(&sb, "%s\t%s\t%s\t%d\t%d\t%s\t%s\t%s\t%s\n", f.Seqid, f.Source, f.Type, f.Start, f.End, f.Score, f.Strand, f.Phase, strings.Join(kv, ";"))
+		}
 		if groups && r.Intn(3) == 0 {
 			sb.WriteString("###\n") // GFF3: all forward references of the features so far are resolved; more features may follow
 		}
@@ -218,12 +234,42 @@ func (rec *gffRecord) writeGFF(r *rand.Rand) string {
 	if r.Intn(6) == 0 {
 		width = len(rec.Seq) + 1 // the whole sequence on one line, however long
 	}
+	var widths []int
 	for i := 0; i < len(rec.Seq); i += width {
 		e := i + width
 		if e > len(rec.Seq) {
 			e = len(rec.Seq)
 		}
-		sb.WriteString(rec.Seq[i:e] + "\n")
+		widths = append(widths, e-i)
+	}
+	switch ragged := r.Intn(8); {
+	case ragged == 0 && len(widths) >= 3:
+		// a regular wrap edited by hand: a letter taken from one line and given to another, one to three times
+		// (the number of lines and of letters stays that of the regular wrap)
+		for n := 1 + r.Intn(3); n > 0; n-- {
+			i, j := r.Intn(len(widths)), r.Intn(len(widths))
+			if i != j && widths[i] > 1 {
+				widths[i]--
+				widths[j]++
+			}
+		}
+		c14RaggedFiles++
+	case ragged == 1 && len(rec.Seq) >= 2:
+		// every line of a width of its own
+		widths = widths[:0]
+		for left := len(rec.Seq); left > 0; {
+			n := 1 + r.Intn(2*width)
+			if n > left {
+				n = left
+			}
+			widths = append(widths, n)
+			left -= n
+		}
+		c14RaggedFiles++
+	}
+	for i, k := 0, 0; k < len(widths); k++ {
+		sb.WriteString(rec.Seq[i:i+widths[k]] + "\n")
+		i += widths[k]
 	}
 	out := sb.String()
 	if r.Intn(3) == 0 {
@@ -421,7 +467,10 @@ func runC14(w *mon.W) {
 			w.Violation(id, "an independent GFF3 reader does not recover the record from gff.Build's output: "+d, rep)
 		}
 		// ---- parse direction
+		pad0, rag0 := c14PaddedFiles, c14RaggedFiles
 		lay := rec.writeGFF(r)
+		w.Add("independent_layouts_with_zero_padded_coordinates", int64(c14PaddedFiles-pad0))
+		w.Add("independent_layouts_with_ragged_fasta_lines", int64(c14RaggedFiles-rag0))
 		if own, err := readGFF(lay); err != nil || diffGFF(rec, own) != "" {
 			w.SelfCheckFail(fmt.Sprintf("gffread(gffwrite(R)) != R: %v", err))
 		} else {
